@@ -266,11 +266,16 @@ sys.setswitchinterval(1e-4)
 from monkeytype.db.sqlite import SQLiteStore
 from vf.props.c09 import mk_trace
 path, w, rounds, size, rfd = sys.argv[1], int(sys.argv[2]), int(sys.argv[3]), int(sys.argv[4]), int(sys.argv[5])
+reopen = len(sys.argv) > 6 and sys.argv[6] == "reopen"
 store = SQLiteStore.make_store(path)
 os.read(rfd, 1)  # barrier: all writers released together
 out = []
 for b in range(rounds):
     batch = [mk_trace("conc", f"w{w}_b{b}.f{i}", 0) for i in range(size)]
+    if reopen and b:
+        # every batch comes from a fresh connection (as each `monkeytype run` does), opened while other writers commit
+        store.conn.close()
+        store = SQLiteStore.make_store(path)
     try:
         store.add(batch)
         out.append([b, "ok"])
@@ -301,7 +306,7 @@ print(json.dumps({"reads": reads, "partial": partial[:10], "npartial": len(parti
 """
 
 
-def run_concurrency(ck, writers, rounds, size, readers, tag):
+def run_concurrency(ck, writers, rounds, size, readers, tag, reopen=False):
     d = core.scratch("c09c")
     path = os.path.join(d, "conc.sqlite3")
     env = core.child_env()
@@ -310,7 +315,7 @@ def run_concurrency(ck, writers, rounds, size, readers, tag):
     stopfile = os.path.join(d, "stop")
     procs = []
     for w in range(writers):
-        procs.append(subprocess.Popen([core.PY, "-X", "faulthandler", "-c", WRITER, path, str(w), str(rounds), str(size), str(rfd)],
+        procs.append(subprocess.Popen([core.PY, "-X", "faulthandler", "-c", WRITER, path, str(w), str(rounds), str(size), str(rfd)] + (["reopen"] if reopen else []),
                                       env=env, cwd=core.VERIF, stdout=subprocess.PIPE, stderr=subprocess.PIPE, text=True, pass_fds=[rfd]))
     rprocs = [subprocess.Popen([core.PY, "-X", "faulthandler", "-c", READER, path, str(size), stopfile], env=env, cwd=core.VERIF,
                                stdout=subprocess.PIPE, stderr=subprocess.PIPE, text=True) for _ in range(readers)]
@@ -362,6 +367,8 @@ def run_concurrency(ck, writers, rounds, size, readers, tag):
         key = f"w{w}_b{b}"
         n = len(by.get(key, []))
         ck.count("concurrent_batches")
+        if reopen:
+            ck.count("concurrent_batches_from_fresh_connections")
         ck.count("evaluations")
         if o == "ok":
             if n != size:
@@ -678,7 +685,7 @@ def run(ck):
     if quick:
         plans.append((8, 2, 5, 2))
     for i, (w, rounds, size, readers) in enumerate(plans):
-        run_concurrency(ck, w, rounds, size, readers, i)
+        run_concurrency(ck, w, rounds, size, readers, i, reopen=i % 2 == 1)
     # (4) faults: VM steps
     d = core.scratch("c09")
     sizes = [6] if quick else [1, 6, 25]
@@ -698,6 +705,21 @@ def run(ck):
         for ch in [ki[i::n] for i in range(n)]:
             if ch:
                 tasks_kill.append({"size": size, "steps": ch})
+    # large batches (more rows than fit one multi-row statement / one page): interruption points sampled over the whole insert
+    rs = ck.rng("bigbatch")
+    for big in ([400] if quick else [400, 1500]):
+        steps = count_steps(os.path.join(d, f"count{big}.sqlite3"), batch_specs("B", big))
+        ck.count("vm_steps_of_uninterrupted_large_add", steps)
+        pts = sorted(set(rs.sample(range(1, steps + 1), min(steps, 96 if quick else 800))) | set(range(max(1, steps - 6), steps + 2)))
+        for ch in [pts[i::n] for i in range(n)]:
+            if ch:
+                tasks_abort.append({"size": big, "steps": ch, "retry": True})
+                ck.count("large_batch_abort_points", len(ch))
+        kp = pts[::6] if quick else pts[::3]
+        for ch in [kp[i::n] for i in range(n)]:
+            if ch:
+                tasks_kill.append({"size": big, "steps": ch})
+                ck.count("large_batch_kill_points", len(ch))
     for r in core.pmap("vf.props.c09:work_abort", tasks_abort, timeout=3000):
         ck.merge(r)
     for r in core.pmap("vf.props.c09:work_kill", tasks_kill, timeout=3000):
@@ -730,10 +752,13 @@ def run(ck):
     ck.need("bulk_histories", 8)
     ck.need("commit_orders", 3, "fewer than 3 distinct commit orders seen")
     ck.need("reader_reads", 20)
+    ck.need("concurrent_batches_from_fresh_connections", 30)
     ck.need("abort_points", 100)
     ck.need("retries_after_abort", 20)
     ck.need("abort_raised", 50, "no abort landed inside the insert")
     ck.need("kill_points", 20)
+    ck.need("large_batch_abort_points", 50)
+    ck.need("large_batch_kill_points", 10)
     ck.need("syscall_fault_points", 10, "strace injection part did not run")
     if ck.counters.get("watchdog_fired"):
         ck.need("no_watchdog", 1, "a watchdog fired")
